@@ -180,6 +180,28 @@ def run(tier: str, seed: int) -> int:
             _cases.append(dict(id=f"poisson/{_D}/{_N}/{_o}", name="poisson", args=[_u], kw=dict(L=3.0, order=_o)))
             _cases.append(dict(id=f"laplace/{_D}/{_N}/{_o}", name="laplace_operator", args=[], kw=dict(D=_D, L=3.0, N=_N, order=_o)))
     _xs.compare(run_, PID, _cases, os.path.join(tlc.SCRATCH, f"c05xs.{os.getpid()}"))
+    # ---- histories across the precision mode: one process uses the operators in float32 and then in float64 on the same grids (and the other
+    # way round); every phase must deliver the accuracy and the dtype of its own mode (c05_switch.py)
+    import json as _json
+    import subprocess as _sp
+    import sys as _sys
+    for _first in ("0", "1"):
+        _outp = os.path.join(tlc.SCRATCH, f"c05sw.{os.getpid()}.{_first}.json")
+        _env = dict(os.environ, VERIF_C05_FIRST=_first, VERIF_C05_OUT=_outp, JAX_PLATFORMS="cpu")
+        _env.pop("JAX_ENABLE_X64", None)
+        _pr = _sp.run([_sys.executable, "-m", "harness.checks.c05_switch"], env=_env, capture_output=True, text=True, timeout=1800, cwd=os.path.dirname(os.path.dirname(os.path.dirname(__file__))))
+        if _pr.returncode != 0 or not os.path.exists(_outp):
+            raise RuntimeError("precision-switch child failed:\n" + _pr.stdout[-1500:] + _pr.stderr[-1500:])
+        _res = _json.load(open(_outp))
+        os.remove(_outp)
+        for _ph in _res["phases"]:
+            for _c in _ph["cases"]:
+                run_.case(("precision-switch", _first, _ph["x64"], _c["what"], _c["D"], _c["N"], _c["order"]))
+                _want = ("complex" if _c["what"] == "laplace operator" else "float") + ("128" if _c["what"] == "laplace operator" and _ph["x64"] else "64" if _ph["x64"] or _c["what"] == "laplace operator" else "32")
+                if _c["dtype"] != _want or not _c["err_over_eps"] <= 300:
+                    run_.violation({"kind": "precision-switch", "what": _c["what"], "D": _c["D"], "order": _c["order"],
+                                    "mode": ("float64" if _ph["x64"] else "float32") + (" phase, first" if str(int(_ph["x64"])) == _first else " phase, after the other mode")},
+                                   {"N": _c["N"], "dtype": _c["dtype"], "expected_dtype": _want, "error_in_units_of_eps": _c["err_over_eps"]})
     # the composed machine (spec/Session.tla): multi-step API sessions generated by TLC -simulate, replayed call by call; this check
     # reports the mismatches of the operations it owns (derive)
     if True:
